@@ -195,13 +195,14 @@ class StealRule(PairRule):
         ns = all_ns(f)
         why = None
         tested = False
-        for (c, v) in st.conds:
-            a = cmp_atom(c)
-            if a is not None and a[1] == 'ult' and const_of(a[2]) is not None:
-                i = init_of(a[3])
+        from .ir_bounds import facts
+        for (kind, x, y) in facts(st):
+            # capacity(source) <= K  (spelled `!(K < cap)` or `cap <= K`)
+            if kind == 'le' and const_of(y) is not None and const_of(y) in ns:
+                i = init_of(x)
                 if i and eng.field_tag.get(i[0]) == 1 and i[0][2] in others:
-                    if v is False and const_of(a[2]) in ns:
-                        why = 'capacity(source) <= %d' % const_of(a[2])
+                    why = 'capacity(source) <= %d' % const_of(y)
+        for (c, v) in st.conds:
             pos, pol = sym.strip_not(c)
             sa_ = single_atom(pos)
             for (ea, ek) in eqrets:
